@@ -59,15 +59,184 @@ def S(n):
     return sp.Symbol(n)
 
 
+# function symbols of the reference formulas: calls to these stay calls (one level of conformance per quantity); a call to
+# any other function defined in the same translation unit is a private helper and is inlined
+QUANT = ("ez_inverse", "ez_inverse_integral", "Dc", "Dm", "Da", "Dl", "dV", "V", "scinv")
+
+
+class _Lower(csymx.Lower):
+    """csymx.Lower, extended so that the term does not depend on how the code is cut into statements and helpers:
+    * a call to a private helper of the translation unit is inlined (the callee is lowered with its parameters bound to the
+      argument terms), a call through a function-pointer parameter becomes a call of the function bound to it;
+    * a load of a member lvalue (c->x) sees the last store to it;
+    * `i = lo; while (i < hi) { ...; i++; }` and `for (int i = lo; ...)` are lowered like `for (i = lo; i < hi; i++)`."""
+
+    def __init__(self, fn, symbols=None, funcs=None, keep=QUANT, depth=0):
+        csymx.Lower.__init__(self, fn, symbols)
+        self.funcs = funcs or {}
+        self.keep = keep
+        self.depth = depth
+
+    def expr(self, n):
+        k = n.get("kind")
+        inner = n.get("inner", []) or []
+        if k == "MemberExpr":
+            key = cfront.render(n)
+            if key in self.env:
+                return self.env[key]
+        if k == "UnaryExprOrTypeTraitExpr":
+            return sp.Symbol(cfront.render(n))
+        if k == "StringLiteral":
+            return sp.Symbol(n.get("value", '""'))
+        if k == "UnaryOperator" and n.get("opcode") == "&":
+            return sp.Symbol("&" + cfront.render(inner[0]))
+        if k == "CallExpr":
+            callee = cfront.strip(inner[0])
+            name = cfront.callee_name(n)
+            if callee.get("kind") == "DeclRefExpr" and (callee.get("referencedDecl") or {}).get("kind") in ("ParmVarDecl", "VarDecl"):
+                bound = self.env.get(name)
+                if not isinstance(bound, sp.Symbol) or str(bound) == name:
+                    raise csymx.CUnsupported("call through the unbound function pointer %s (line %s)" % (name, n.get("line")))
+                name = str(bound)
+            if not name:
+                raise csymx.CUnsupported("indirect call (line %s)" % n.get("line"))
+            args = [self.expr(a) for a in inner[1:]]
+            if name in csymx.MATH:
+                return csymx.MATH[name](*args)
+            if name in self.funcs and name not in self.keep:
+                if self.depth >= 4:
+                    raise csymx.CUnsupported("helper nesting too deep at %s" % name)
+                decl = self.funcs[name]
+                params = cfront.params_of(decl)
+                if len(params) != len(args):
+                    raise csymx.CUnsupported("helper %s called with %d arguments" % (name, len(args)))
+                sub = _Lower(decl, dict(zip(params, args)), self.funcs, self.keep, self.depth + 1)
+                t = csymx.merged_return(sub.run(cfront.body_of(decl).get("inner", []) or []))
+                if t is None:
+                    raise csymx.CUnsupported("helper %s returns no value" % name)
+                return t
+            return sp.Function(name)(*args)
+        return csymx.Lower.expr(self, n)
+
+    def run(self, stmts, cond=sp.true):
+        return csymx.Lower.run(self, [self._canon_loop(st) for st in stmts], cond)
+
+    @staticmethod
+    def _ref(name):
+        return {"kind": "DeclRefExpr", "referencedDecl": {"kind": "VarDecl", "name": name}}
+
+    def _canon_loop(self, st):
+        k = st.get("kind")
+        inner = st.get("inner", []) or []
+        if k == "ForStmt" and inner and inner[0].get("kind") == "DeclStmt":
+            vs = [v for v in inner[0].get("inner", []) if v.get("kind") == "VarDecl"]
+            init = [c for c in (vs[0].get("inner", []) if len(vs) == 1 else []) if isinstance(c, dict) and c.get("kind")]
+            if len(vs) == 1 and init:
+                st = dict(st)
+                st["inner"] = [{"kind": "BinaryOperator", "opcode": "=", "inner": [self._ref(vs[0]["name"]), init[-1]]}] + inner[1:]
+            return st
+        if k != "WhileStmt":
+            return st
+        test = cfront.strip(inner[0])
+        body = inner[-1]
+        bs = list(body.get("inner", []) or []) if body.get("kind") == "CompoundStmt" else [body]
+        if not (test.get("kind") == "BinaryOperator" and test.get("opcode") in ("<", "<=") and cfront.strip(test["inner"][0]).get("kind") == "DeclRefExpr" and bs):
+            raise csymx.CUnsupported("while loop is not a counted loop (line %s)" % st.get("line"))
+        iv = cfront.render(test["inner"][0])
+        last = cfront.render(bs[-1]).replace(" ", "")
+        if last not in (iv + "++", "++" + iv, "(%s+=1)" % iv, "(%s=(%s+1))" % (iv, iv), "(%s=(1+%s))" % (iv, iv)):
+            raise csymx.CUnsupported("while loop does not end by incrementing %s (line %s)" % (iv, st.get("line")))
+        for b in bs[:-1]:
+            for x in cfront.walk(b):
+                if x.get("kind") in ("ContinueStmt", "BreakStmt", "ReturnStmt") or (
+                        x.get("kind") in ("BinaryOperator", "CompoundAssignOperator", "UnaryOperator") and x.get("opcode") in ("=", "+=", "-=", "*=", "/=", "++", "--")
+                        and cfront.render(x["inner"][0]) == iv):
+                    raise csymx.CUnsupported("while loop changes %s or leaves early (line %s)" % (iv, st.get("line")))
+        return {"kind": "ForStmt", "line": st.get("line"), "inner": [
+            {"kind": "BinaryOperator", "opcode": "=", "inner": [self._ref(iv), self._ref(iv)]}, {}, inner[0],
+            {"kind": "UnaryOperator", "opcode": "++", "isPostfix": True, "inner": [self._ref(iv)]},
+            {"kind": "CompoundStmt", "inner": bs[:-1]}]}
+
+
 def lowered(lib, name, symbols=None):
     if name not in lib:
         raise AnalysisError("C anchor %s not found in cosmolib.c" % name)
-    r, L = csymx.lower_function(lib[name], symbols)
+    L = _Lower(lib[name], symbols, lib)
+    r = L.run(cfront.body_of(lib[name]).get("inner", []) or [])
     return csymx.merged_return(r), L
 
 
 def _eq(a, b):
+    if a is None or b is None:
+        return False
     return symx.equal(a, b)[0]
+
+
+IDX = sp.Symbol("i", integer=True)
+POS = sp.Symbol("K_pos", positive=True)
+NEG = sp.Symbol("K_neg", negative=True)
+
+
+def _case(t, case):
+    """the term in one case of the state space (symbol -> representative value: 0/1 for the flat flag, a positive or negative
+    symbol for the curvature ...): guards are decided by substitution; None when a guard stays undecided"""
+    if t is None:
+        return None
+    try:
+        r = t.subs(case, simultaneous=True)
+        if r.has(sp.Piecewise):
+            r = sp.piecewise_fold(r)
+    except Exception:
+        return None
+    if r.has(sp.Piecewise) or any(isinstance(x, sp.core.relational.Relational) for x in sp.preorder_traversal(r)):
+        return None
+    return r
+
+
+def _same_in(t, ref, case):
+    """True / False / None (a guard of the code is undecided in that case): t equals ref in the given case"""
+    a = _case(t, case)
+    if a is None:
+        return None
+    return bool(_eq(a, ref.subs(case, simultaneous=True)))
+
+
+def _all3(vals):
+    """conjunction over True / False / None: a recognised contradiction wins over `not recognised`"""
+    vals = list(vals)
+    if any(v is False for v in vals):
+        return False
+    if any(v is None for v in vals):
+        return None
+    return True
+
+
+def _sum_form(t):
+    """(total summand over the canonical index, lo, hi) of  k * Sum(f, (j, lo, hi))  with k free of j, else None"""
+    if t is None:
+        return None
+    k = sp.Integer(1)
+    if isinstance(t, sp.Mul):
+        sums = [a for a in t.args if isinstance(a, sp.Sum)]
+        if len(sums) != 1:
+            return None
+        k = sp.Mul(*[a for a in t.args if a is not sums[0]])
+        t = sums[0]
+    if not isinstance(t, sp.Sum) or len(t.limits) != 1:
+        return None
+    j, lo, hi = t.limits[0]
+    if k.has(j):
+        return None
+    return (k * t.function).subs(j, IDX), lo, hi
+
+
+def _sum_ok(t, summand, n):
+    """True / False / None: t is sum_{i=0}^{n-1} summand(i)"""
+    sf = _sum_form(t)
+    if sf is None:
+        return None if (t is None or not t.has(sp.Sum)) else False
+    f, lo, hi = sf
+    return bool(lo == 0 and hi == n - 1 and _eq(f, summand))
 
 
 def formulas(chk, lib):
@@ -76,62 +245,50 @@ def formulas(chk, lib):
     om, ol, ok_, DH, tc, flat = S("c.omega_m"), S("c.omega_l"), S("c.omega_k"), S("c.DH"), S("c.tcfac"), S("c.flat")
     c = S("c")
     Fn = {n: sp.Function(n) for n in ("ez_inverse", "ez_inverse_integral", "Dc", "Dm", "Da", "Dl", "dV")}
-    # 1/E(z)
-    t, _ = lowered(lib, "ez_inverse")
-    ps = t.args if isinstance(t, sp.Piecewise) else ()
-    flat_arm = [v for v, cnd in ps if cnd != sp.true and (cnd == sp.Ne(flat, 0))] or [v for v, cnd in ps if cnd == sp.true and any(cc == sp.Eq(flat, 0) for _, cc in ps)]
-    curv_arm = [v for v, cnd in ps if v not in flat_arm]
-    okf = len(flat_arm) == 1 and _eq(flat_arm[0], 1 / sp.sqrt(om * (1 + z) ** 3 + ol))
-    chk.ob("R11.1", "ez_inverse::flat", okf, W, "flat: 1/E = 1/sqrt(Om (1+z)^3 + OL) (found %s)" % flat_arm)
-    okc = len(curv_arm) == 1 and _eq(curv_arm[0], 1 / sp.sqrt(om * (1 + z) ** 3 + ok_ * (1 + z) ** 2 + ol))
-    chk.ob("R11.1", "ez_inverse::curved", okc, W, "curved: 1/E = 1/sqrt(Om (1+z)^3 + Ok (1+z)^2 + OL) (found %s)" % curv_arm)
+
+    def low(name):
+        try:
+            return lowered(lib, name)[0]
+        except csymx.CUnsupported as e:
+            chk.ob("R11.1", name + "::lowered", None, W, "the body of %s is outside the C subset that is lowered to a term (%s)" % (name, e))
+            return None
+
+    i = IDX
+    # 1/E(z): decided per case of the flat flag (the guards are evaluated, their spelling and nesting do not matter)
+    t = low("ez_inverse")
+    chk.ob("R11.1", "ez_inverse::flat", _same_in(t, 1 / sp.sqrt(om * (1 + z) ** 3 + ol), {flat: 1}), W, "flat: 1/E = 1/sqrt(Om (1+z)^3 + OL) (found %s)" % _case(t, {flat: 1}))
+    chk.ob("R11.1", "ez_inverse::curved", _same_in(t, 1 / sp.sqrt(om * (1 + z) ** 3 + ok_ * (1 + z) ** 2 + ol), {flat: 0}), W,
+           "curved: 1/E = 1/sqrt(Om (1+z)^3 + Ok (1+z)^2 + OL) (found %s)" % _case(t, {flat: 0}))
     # integral
-    t, _ = lowered(lib, "ez_inverse_integral")
-    i = sp.Symbol("i", integer=True)
+    t = low("ez_inverse_integral")
     f1, f2 = (zmax - zmin) / 2, (zmax + zmin) / 2
-    ref = sp.Sum(f1 * sp.Function("c.w")(i) * Fn["ez_inverse"](c, sp.Function("c.x")(i) * f1 + f2), (i, 0, 4))
-    ok = isinstance(t, sp.Sum) and t.limits == ref.limits and _eq(t.function, ref.function)
+    ok = _sum_ok(t, f1 * sp.Function("c.w")(i) * Fn["ez_inverse"](c, sp.Function("c.x")(i) * f1 + f2), 5)
     chk.ob("R11.1", "ez_inverse_integral::gauss-legendre-sum", ok, W, "(b-a)/2 * sum_{i<5} w_i / E((b-a)/2 x_i + (a+b)/2) (found %s)" % t)
-    t, _ = lowered(lib, "Dc")
-    chk.ob("R11.1", "Dc", _eq(t, DH * Fn["ez_inverse_integral"](c, zmin, zmax)), W, "D_C = D_H * integral of 1/E (found %s)" % t)
-    t, _ = lowered(lib, "Dm")
+    t = low("Dc")
+    chk.ob("R11.1", "Dc", _eq(t, DH * Fn["ez_inverse_integral"](c, zmin, zmax)) if t is not None else None, W, "D_C = D_H * integral of 1/E (found %s)" % t)
+    t = low("Dm")
     dc = Fn["Dc"](c, zmin, zmax)
-    arms = {}
-    if isinstance(t, sp.Piecewise):
-        for v, cnd in t.args:
-            if isinstance(v, sp.Piecewise):
-                for v2, c2 in v.args:
-                    arms["open" if c2 != sp.true else "closed"] = (v2, cnd, c2)
-            else:
-                arms["flat"] = (v, cnd, None)
-    ok = set(arms) == {"open", "closed", "flat"} and _eq(arms["open"][0], sp.sinh(dc * tc) / tc) and _eq(arms["closed"][0], sp.sin(dc * tc) / tc) and _eq(arms["flat"][0], dc)
-    chk.ob("R11.1", "Dm::three-arms", bool(ok), W, "D_M = sinh(D_C t)/t (Ok>0), sin(D_C t)/t (Ok<0), D_C (flat), t = sqrt|Ok|/D_H (found %s)" % t)
-    if "open" in arms:
-        okc = arms["open"][2] == sp.Gt(ok_, 0) and arms["open"][1] == sp.Eq(flat, 0)
-        chk.ob("R11.1", "Dm::arm-conditions", bool(okc), W, "sinh arm for Omega_k > 0, curved arms only when not flat (%s, %s)" % (arms["open"][1], arms["open"][2]))
-    t, _ = lowered(lib, "Da")
-    chk.ob("R11.1", "Da", _eq(t, Fn["Dm"](c, zmin, zmax) / (1 + zmax)), W, "D_A = D_M/(1+z) (found %s)" % t)
-    t, _ = lowered(lib, "Dl")
-    chk.ob("R11.1", "Dl", _eq(t, Fn["Dm"](c, zmin, zmax) * (1 + zmax)), W, "D_L = (1+z) D_M (found %s)" % t)
-    t, _ = lowered(lib, "dV")
-    chk.ob("R11.1", "dV", _eq(t, DH * (1 + z) ** 2 * Fn["Da"](c, 0, z) ** 2 * Fn["ez_inverse"](c, z)), W, "dV = D_H (1+z)^2 D_A(0,z)^2 / E(z) (found %s)" % t)
-    t, _ = lowered(lib, "V")
-    ref = 4 * sp.pi * sp.Sum(f1 * sp.Function("c.vw")(i) * Fn["dV"](c, sp.Function("c.vx")(i) * f1 + f2), (i, 0, 9))
-    ok = False
-    if isinstance(t, sp.Mul):
-        k, rest = t.as_independent(sp.Sum, as_Add=False)
-        ok = isinstance(rest, sp.Sum) and sp.simplify(k - 4 * sp.pi) == 0 and rest.limits == ((i, 0, 9),) and _eq(rest.function, ref.args[-1].function if isinstance(ref.args[-1], sp.Sum) else 0)
-        if not ok and isinstance(rest, sp.Sum):
-            ok = sp.simplify(k - 4 * sp.pi) == 0 and rest.limits == ((i, 0, 9),) and _eq(rest.function, f1 * sp.Function("c.vw")(i) * Fn["dV"](c, sp.Function("c.vx")(i) * f1 + f2))
-    chk.ob("R11.1", "V::ten-point-sum-times-4pi", bool(ok), W, "V = 4 pi * (b-a)/2 * sum_{i<10} vw_i dV((b-a)/2 vx_i + (a+b)/2) (found %s)" % t)
-    t, _ = lowered(lib, "scinv")
-    zero = [(v, cnd) for v, cnd in (t.args if isinstance(t, sp.Piecewise) else ()) if v == 0]
-    main = [(v, cnd) for v, cnd in (t.args if isinstance(t, sp.Piecewise) else ()) if v != 0]
-    okz = len(zero) == 1 and zero[0][1] in (sp.Le(zs, zl), sp.Ge(zl, zs))
-    chk.ob("R11.1", "scinv::zero-for-source-at-or-in-front-of-lens", okz, W, "Sigma_crit^-1 = 0 for z_s <= z_l (found %s)" % zero)
+    ok = _all3([_same_in(t, sp.sinh(dc * tc) / tc, {flat: 0, ok_: POS}), _same_in(t, sp.sin(dc * tc) / tc, {flat: 0, ok_: NEG}), _same_in(t, dc, {flat: 1})])
+    chk.ob("R11.1", "Dm::three-arms", ok, W, "D_M = sinh(D_C t)/t (Ok>0), sin(D_C t)/t (Ok<0), D_C (flat), t = sqrt|Ok|/D_H (found %s)" % t)
+    okc = _all3([_same_in(t, dc, {flat: 1, ok_: POS}), _same_in(t, dc, {flat: 1, ok_: NEG}), _same_in(t, sp.sinh(dc * tc) / tc, {flat: 0, ok_: POS})])
+    chk.ob("R11.1", "Dm::arm-conditions", okc, W, "sinh arm for Omega_k > 0, curved arms only when not flat (found %s)" % t)
+    t = low("Da")
+    chk.ob("R11.1", "Da", _eq(t, Fn["Dm"](c, zmin, zmax) / (1 + zmax)) if t is not None else None, W, "D_A = D_M/(1+z) (found %s)" % t)
+    t = low("Dl")
+    chk.ob("R11.1", "Dl", _eq(t, Fn["Dm"](c, zmin, zmax) * (1 + zmax)) if t is not None else None, W, "D_L = (1+z) D_M (found %s)" % t)
+    t = low("dV")
+    chk.ob("R11.1", "dV", _eq(t, DH * (1 + z) ** 2 * Fn["Da"](c, 0, z) ** 2 * Fn["ez_inverse"](c, z)) if t is not None else None, W, "dV = D_H (1+z)^2 D_A(0,z)^2 / E(z) (found %s)" % t)
+    t = low("V")
+    ok = _sum_ok(t, 4 * sp.pi * f1 * sp.Function("c.vw")(i) * Fn["dV"](c, sp.Function("c.vx")(i) * f1 + f2), 10)
+    chk.ob("R11.1", "V::ten-point-sum-times-4pi", ok, W, "V = 4 pi * (b-a)/2 * sum_{i<10} vw_i dV((b-a)/2 vx_i + (a+b)/2) (found %s)" % t)
+    t = low("scinv")
+    dnn, dpos, zlr = sp.Symbol("d_nonneg", nonnegative=True), sp.Symbol("d_pos", positive=True), sp.Symbol("zl", real=True)
+    front = _case(t, {zl: zlr, zs: zlr - dnn})
+    chk.ob("R11.1", "scinv::zero-for-source-at-or-in-front-of-lens", None if front is None else bool(front == 0), W, "Sigma_crit^-1 = 0 for z_s <= z_l (found %s)" % front)
     DaF = sp.Function("Da")
-    if len(main) == 1:
-        v = main[0][0]
+    behind = _case(t, {zl: zlr, zs: zlr + dpos})
+    if behind is not None:
+        v = behind.subs(dpos, zs - zl).subs(zlr, zl)
         k, rest = v.as_independent(DaF, as_Add=False)
         okm = _eq(rest, DaF(c, zl, zs) * DaF(c, 0, zl) / DaF(c, 0, zs))
         chk.ob("R11.1", "scinv::distance-ratio", okm, W, "Sigma_crit^-1 proportional to D_ls D_l / D_s (found %s)" % rest)
@@ -140,18 +297,30 @@ def formulas(chk, lib):
         cl = sp.Rational("2.99792458e8")
         pc = sp.Rational("3.0856775814913673e16")
         want = 4 * sp.pi * GM / cl ** 2 / pc * 10 ** 6
-        rel = abs(float(k / want) - 1)
-        chk.ob("R11.1", "scinv::four-pi-G-over-c-squared", rel < 1e-3, W, "the constant %s agrees with 4 pi G M_sun/c^2 per pc (x 1e6 pc/Mpc) = %.9g within 1e-3 (relative difference %.2e)" % (float(k), float(want), rel))
-    # cosmo_new: tcfac
-    new = lib.get("cosmo_new")
-    if new is None:
+        try:
+            rel = abs(float(k / want) - 1)
+        except TypeError:
+            rel = None
+        chk.ob("R11.1", "scinv::four-pi-G-over-c-squared", None if rel is None else rel < 1e-3, W,
+               "the constant %s agrees with 4 pi G M_sun/c^2 per pc (x 1e6 pc/Mpc) = %.9g within 1e-3 (relative difference %s)" % (k, float(want), rel))
+    else:
+        chk.ob("R11.1", "scinv::distance-ratio", None, W, "the value of scinv for z_s > z_l could not be isolated (found %s)" % t)
+    # cosmo_new: the state of the struct when it is returned (stores to members are followed, helpers inlined)
+    if "cosmo_new" not in lib:
         raise AnalysisError("cosmo_new not found")
-    rows = csymx.stmt_rhs_table(new)
-    tcs = [r for l, r, _ in rows if l == "c->tcfac" and r is not None]
-    okt = any(_eq(r, sp.sqrt(S("c.omega_k")) / S("c.DH")) for r in tcs) and any(_eq(r, sp.sqrt(-S("c.omega_k")) / S("c.DH")) for r in tcs)
-    chk.ob("R11.1", "cosmo_new::tcfac", okt, W, "tcfac = sqrt(|Omega_k|)/D_H (sqrt(Ok) for Ok>0, sqrt(-Ok) otherwise): %s" % tcs)
-    cp = {l: str(r) for l, r, _ in rows if l.startswith("c->") and l != "c->tcfac"}
-    chk.ob("R11.1", "cosmo_new::parameters-stored", cp == {"c->DH": "DH", "c->flat": "flat", "c->omega_m": "omega_m", "c->omega_l": "omega_l", "c->omega_k": "omega_k"}, W, "the five parameters are stored unmodified (%s)" % cp)
+    try:
+        _, L = lowered(lib, "cosmo_new")
+        st = L.env
+    except csymx.CUnsupported as e:
+        chk.ob("R11.1", "cosmo_new::lowered", None, W, "cosmo_new is outside the C subset that is lowered (%s)" % e)
+        st = None
+    if st is not None:
+        pk, pDH, pflat = S("omega_k"), S("DH"), S("flat")
+        tcv = st.get("c->tcfac")
+        okt = _all3([_same_in(tcv, sp.sqrt(pk) / pDH, {pflat: 0, pk: POS}), _same_in(tcv, sp.sqrt(-pk) / pDH, {pflat: 0, pk: NEG})]) if tcv is not None else None
+        chk.ob("R11.1", "cosmo_new::tcfac", okt, W, "tcfac = sqrt(|Omega_k|)/D_H (sqrt(Ok) for Ok>0, sqrt(-Ok) otherwise): %s" % tcv)
+        cp = {m: st.get("c->" + m) for m in ("DH", "flat", "omega_m", "omega_l", "omega_k")}
+        chk.ob("R11.1", "cosmo_new::parameters-stored", all(v == S(m) for m, v in cp.items()), W, "the five parameters are stored unmodified (%s)" % cp)
 
 
 def quadrature(chk, lib):
@@ -170,6 +339,198 @@ def quadrature(chk, lib):
                 if l.startswith(("c->x[", "c->w[", "c->vx[", "c->vw[")):
                     writers.add(name)
     chk.ob("R11.2", "node-weight-arrays::no-other-writer", not writers, W, "no function other than the rule generator stores into the node/weight arrays (%s)" % sorted(writers))
+
+
+# --------------------------------------------------------------------------
+# wrappers: helpers of the wrapper translation unit are inlined into the wrapper (on the clang tree), then the whole wrapper is
+# lowered, so that the rules see the same terms whether the 26 bodies are written out or share generic helpers
+# --------------------------------------------------------------------------
+_EXTERNAL_PREFIX = ("Py", "_Py", "npy_", "NPY_", "__builtin")
+_tu_fn_cache = {}
+
+
+def _tu_function(name, tu="cosmolib_pywrap"):
+    """a function of the wrapper translation unit that the name-filtered dump of the unit does not contain (a helper whose name
+    lacks the PyCosmo prefix): dumped on demand with its own name filter.  None when the unit does not define it."""
+    if name in _tu_fn_cache:
+        return _tu_fn_cache[name]
+    key = "%s@%s" % (tu, name)
+    cfront.TUS.setdefault(key, dict(cfront.TUS[tu], filt=name))
+    try:
+        fn = cfront.functions(cfront.load_tu(key, _raw=True)).get(name)
+    except AnalysisError:
+        fn = None
+    _tu_fn_cache[name] = fn
+    return fn
+
+
+class _NoInline(Exception):
+    pass
+
+
+def _compound(stmts):
+    return {"kind": "CompoundStmt", "inner": list(stmts)}
+
+
+def _branch_stmts(n):
+    if n is None:
+        return []
+    return list(n.get("inner", []) or []) if n.get("kind") == "CompoundStmt" else [n]
+
+
+def _inline_helpers(fn, resolve, rounds=3):
+    """copy of a function declaration in which calls to helpers of the same translation unit that stand in statement position
+    (`return h(..);`  `x = h(..);`  `T x = h(..);`  `h(..);`) are replaced by the helper's body: parameters are copied in as
+    fresh locals, the helper's locals get a unique prefix, `return e` of the helper becomes the assignment (or stays a return for
+    a tail call) with the statements after an early return moved into the other arm"""
+    import copy
+    import itertools
+    counter = itertools.count(1)
+    fn = copy.deepcopy(fn)
+
+    def helper_of(call):
+        call = cfront.strip(call)
+        if call.get("kind") != "CallExpr":
+            return None, None
+        callee = cfront.strip(call["inner"][0])
+        rd = callee.get("referencedDecl") or {}
+        if callee.get("kind") != "DeclRefExpr" or rd.get("kind") != "FunctionDecl":
+            return None, None
+        decl = resolve(rd.get("name", ""))
+        return (decl, call) if decl is not None else (None, None)
+
+    def assign(target, value):
+        return {"kind": "BinaryOperator", "opcode": "=", "inner": [copy.deepcopy(target), value]}
+
+    def conv(stmts, target):
+        out = []
+        for idx, st in enumerate(stmts):
+            k = st.get("kind")
+            if k == "ReturnStmt":
+                v = (st.get("inner") or [None])[0]
+                if v is not None:
+                    out.append(assign(target, v) if target is not None else v)
+                return out, True
+            if k == "IfStmt":
+                inner = st["inner"]
+                has_else = len(inner) > 2 and st.get("hasElse", True)
+                a, ta = conv(_branch_stmts(inner[1]), target)
+                b, tb = conv(_branch_stmts(inner[2]) if has_else else [], target)
+                tr = False
+                if ta or tb:
+                    rest, tr = conv(stmts[idx + 1:], target)
+                    if not ta:
+                        a = a + rest
+                    if not tb:
+                        b = b + rest
+                out.append({"kind": "IfStmt", "line": st.get("line"), "hasElse": bool(b), "inner": [inner[0], _compound(a)] + ([_compound(b)] if b else [])})
+                if ta or tb:
+                    return out, (ta or tr) and (tb or tr)
+                continue
+            if any(x.get("kind") == "ReturnStmt" for x in cfront.walk(st)):
+                raise _NoInline("return inside %s of a helper" % k)
+            out.append(st)
+        return out, False
+
+    def expand(decl, call, mode, target):
+        body = copy.deepcopy(cfront.body_of(decl))
+        parms = [c for c in decl.get("inner", []) if c.get("kind") == "ParmVarDecl"]
+        args = call["inner"][1:]
+        if len(parms) != len(args) or any(not p.get("name") for p in parms):
+            raise _NoInline("argument count")
+        prefix = "h%d$" % next(counter)
+        local = {p["name"] for p in parms} | {x["name"] for x in cfront.walk(body) if x.get("kind") == "VarDecl" and x.get("name")}
+        for x in cfront.walk(body):
+            if x.get("kind") == "VarDecl" and x.get("name") in local:
+                x["name"] = prefix + x["name"]
+            elif x.get("kind") == "DeclRefExpr":
+                rd = x.get("referencedDecl") or {}
+                if rd.get("kind") in ("VarDecl", "ParmVarDecl") and rd.get("name") in local:
+                    rd["name"] = prefix + rd["name"]
+        copy_in = [{"kind": "DeclStmt", "line": call.get("line"), "inner": [
+            {"kind": "VarDecl", "name": prefix + p_["name"], "type": p_.get("type", {}), "inner": [copy.deepcopy(a)]}]} for p_, a in zip(parms, args)]
+        stmts = body.get("inner", []) or []
+        if mode != "return":
+            stmts, _ = conv(stmts, target)
+        return copy_in + stmts
+
+    def rewrite(stmts):
+        out = []
+        changed = False
+        for st in stmts:
+            k = st.get("kind")
+            inner = st.get("inner", []) or []
+            rep = None
+            try:
+                if k == "ReturnStmt" and inner:
+                    decl, call = helper_of(inner[0])
+                    if decl is not None:
+                        rep = expand(decl, call, "return", None)
+                elif k == "BinaryOperator" and st.get("opcode") == "=":
+                    decl, call = helper_of(inner[1])
+                    if decl is not None:
+                        rep = expand(decl, call, "assign", inner[0])
+                elif k == "CallExpr":
+                    decl, call = helper_of(st)
+                    if decl is not None:
+                        rep = expand(decl, call, "stmt", None)
+                elif k == "DeclStmt" and len(inner) == 1 and inner[0].get("kind") == "VarDecl":
+                    init = [c for c in inner[0].get("inner", []) if isinstance(c, dict) and c.get("kind")]
+                    decl, call = helper_of(init[-1]) if init else (None, None)
+                    if decl is not None:
+                        bare = dict(inner[0])
+                        bare["inner"] = []
+                        ref = {"kind": "DeclRefExpr", "referencedDecl": {"kind": "VarDecl", "name": inner[0]["name"]}}
+                        rep = [{"kind": "DeclStmt", "inner": [bare]}] + expand(decl, call, "assign", ref)
+            except _NoInline:
+                rep = None
+            if rep is not None:
+                out.extend(rep)
+                changed = True
+                continue
+            if k == "IfStmt":
+                st = dict(st)
+                ni = [inner[0]]
+                for b in inner[1:]:
+                    bs, ch = rewrite(_branch_stmts(b))
+                    changed = changed or ch
+                    ni.append(_compound(bs))
+                st["inner"] = ni
+            elif k in ("ForStmt", "WhileStmt", "DoStmt") and inner:
+                pos = 0 if k == "DoStmt" else len(inner) - 1
+                bs, ch = rewrite(_branch_stmts(inner[pos]))
+                if ch:
+                    changed = True
+                    st = dict(st)
+                    st["inner"] = inner[:pos] + [_compound(bs)] + inner[pos + 1:]
+            elif k == "CompoundStmt":
+                bs, ch = rewrite(inner)
+                changed = changed or ch
+                st = _compound(bs)
+            out.append(st)
+        return out, changed
+
+    for _ in range(rounds):
+        body = cfront.body_of(fn)
+        stmts, changed = rewrite(body.get("inner", []) or [])
+        if not changed:
+            break
+        fn["inner"] = [c for c in fn["inner"] if c.get("kind") != "CompoundStmt"] + [_compound(stmts)]
+    return fn
+
+
+def _pieces(t):
+    """the values a (possibly nested) Piecewise term can take"""
+    if isinstance(t, sp.Piecewise):
+        out = []
+        for v, _ in t.args:
+            out += _pieces(v)
+        return out
+    return [t]
+
+
+def _fname(t):
+    return t.func.__name__ if isinstance(t, sp.core.function.AppliedUndef) else None
 
 
 def wrappers(chk, lib, wrap, decls):
@@ -194,57 +555,82 @@ def wrappers(chk, lib, wrap, decls):
     chk.ob("R11.3", "method-table::complete-and-consistent", not miss and len(table) == len(expected), W, "all %d methods map to their own wrapper (missing/mismatched: %s; extra: %s)" % (len(expected), miss, sorted(set(table) - set(expected))))
     c = S("self.cosmo")
 
+    def resolve(name):
+        if not name or name in lib or name in csymx.MATH or name.startswith(_EXTERNAL_PREFIX):
+            return None
+        return wrap.get(name) or _tu_function(name)
+
     def check(wname, q, argspec):
         fn = wrap.get("PyCosmoObject_" + wname)
         if fn is None:
             chk.ob("R11.3", wname + "::present", False, W, "wrapper missing")
             return
         chk.analysed_unit("PyCosmoObject_" + wname)
+        fn = _inline_helpers(fn, resolve)
         fmt, names = parse_tuple_binding(fn)
         want_fmt = ["O" if v else "d" for _, v in argspec]
-        chk.ob("R11.3", wname + "::parse-format", parse_tuple_format(fmt or "") == want_fmt, W, "format %r matches (%s)" % (fmt, ", ".join("%s:%s" % (n, "array" if v else "scalar") for n, v in argspec)))
-        rows = csymx.stmt_rhs_table(fn, {"self": S("self")})
+        spec_txt = ", ".join("%s:%s" % (n, "array" if v else "scalar") for n, v in argspec)
+        if fmt is None:
+            chk.ob("R11.3", wname + "::parse-format", None, W, "no PyArg_ParseTuple call found in the wrapper or the helpers it delegates to (%s)" % spec_txt)
+        else:
+            chk.ob("R11.3", wname + "::parse-format", parse_tuple_format(fmt) == want_fmt and len(names) == len(argspec), W, "format %r matches (%s)" % (fmt, spec_txt))
         vec = any(v for _, v in argspec)
-        # map parsed object names to data pointer names:  zmin = (double*)PyArray_DATA(zminObj)
-        ptr = {}
-        for l, r, node in rows:
-            txt = cfront.render(node["inner"][1])
-            if "PyArray_DATA(" in txt:
-                obj = txt.split("PyArray_DATA(")[1].rstrip(")")
-                ptr[obj] = l
-        i = sp.Symbol("i", integer=True)
+        # the k-th parsed variable is the k-th argument; an array argument is read through its data pointer at the loop index
         args = []
         for k, (n, v) in enumerate(argspec):
             pn = names[k] if k < len(names) else n
-            if v:
-                args.append(sp.Function(ptr.get(pn, pn))(i))
-            else:
-                args.append(S(pn))
+            args.append(sp.Function("PyArray_DATA(%s)" % pn)(IDX) if v else S(pn))
         ref_call = sp.Function(q)(c, *args)
-        body, _ = lowered(lib, q, dict([("c", c)] + list(zip([p for p in cfront.params_of(lib[q])[1:]], args))))
-        # the member symbols of the inlined body are rendered as c.X with c = self.cosmo
-        body = body.xreplace({s: S(str(s).replace("c.", "self.cosmo.", 1)) for s in body.free_symbols if str(s).startswith("c.")}) if body is not None else None
-        tgt = "res[i]" if vec else None
-        got = None
-        for l, r, node in rows:
-            if vec and l == "res[i]":
-                got = r
-            if not vec and r is not None and r.has(sp.Function(q)):
-                got = r
-        ok = got is not None and (_eq(got, ref_call) or (body is not None and _eq(got, body)))
-        chk.ob("R11.3", wname + "::computes-%s-of-its-arguments" % q, bool(ok), W, "stores %s (found %s)" % (ref_call, got))
-        if vec:
-            # output sized from the (first) array argument, loop over all n elements
-            arr = [names[k] for k, (n, v) in enumerate(argspec) if v and k < len(names)]
-            sz = [cfront.render(node["inner"][1]) for l, r, node in rows if l == "n"]
-            oks = len(sz) == 1 and arr and ("PyArray_DIMS(%s)" % arr[0] in sz[0] or "PyArray_SIZE(%s)" % arr[0] in sz[0])
-            chk.ob("R11.3", wname + "::output-sized-from-array-argument", bool(oks), W, "n is the size of %s (%s)" % (arr[:1], [s[:60] for s in sz]))
-            fors = [x for x in cfront.walk(cfront.body_of(fn)) if x.get("kind") == "ForStmt"]
-            okl = len(fors) == 1 and cfront.render(fors[0]["inner"][0]) == "(i = 0)" and cfront.render(fors[0]["inner"][2]) == "(i < n)"
-            chk.ob("R11.3", wname + "::loop-over-all-elements", okl, W, "for i in [0, n)")
-            alloc = [c_ for c_ in cfront.calls_in(cfront.body_of(fn)) if "PyArray_API" in cfront.render(c_) or cfront.callee_name(c_) in ("PyArray_ZEROS", "PyArray_Zeros")]
-            rets = [cfront.render(x) for x in cfront.walk(cfront.body_of(fn)) if x.get("kind") == "ReturnStmt"]
-            chk.ob("R11.3", wname + "::returns-new-array", "return resObj" in rets, W, "a newly allocated float64 array is returned")
+        try:
+            body, _ = lowered(lib, q, dict([(cfront.params_of(lib[q])[0], c)] + list(zip(cfront.params_of(lib[q])[1:], args))))
+        except csymx.CUnsupported:
+            body = None
+        key_c = wname + "::computes-%s-of-its-arguments" % q
+        params = cfront.params_of(fn)
+        L = _Lower(fn, {params[0]: S("self")} if params else None, {}, keep=())
+        try:
+            rets = L.run(cfront.body_of(fn).get("inner", []) or [])
+        except csymx.CUnsupported as e:
+            chk.ob("R11.3", key_c, None, W, "the wrapper body is outside the C subset that is lowered to terms (%s)" % e)
+            return
+        live = [v for _, v in rets if v is not None for v in _pieces(v) if v != 0]
+
+        def same(got):
+            return got is not None and bool(_eq(got, ref_call) or (body is not None and _eq(got, body)))
+
+        if not vec:
+            vals = [v.args[0] for v in live if _fname(v) == "PyFloat_FromDouble" and len(v.args) == 1]
+            if not live or len(vals) != len(live):
+                chk.ob("R11.3", key_c, None, W, "the wrapper does not return PyFloat_FromDouble(value) on every path (returns %s)" % live)
+            else:
+                chk.ob("R11.3", key_c, all(same(v) for v in vals), W, "returns %s as a Python float (found %s)" % (ref_call, vals))
+            return
+        st = [s_ for s_ in L.stores]
+        if len(st) != 1 or st[0]["loop"] is None:
+            for suffix in ("::computes-%s-of-its-arguments" % q, "::output-sized-from-array-argument", "::loop-over-all-elements", "::returns-new-array"):
+                chk.ob("R11.3", wname + suffix, None, W, "expected exactly one loop storing into one output array, found stores %s" % [(s_["base"], s_["index"]) for s_ in st])
+            return
+        s0 = st[0]
+        lo, hi = s0["loop"]
+        chk.ob("R11.3", key_c, bool(s0["index"] == IDX) and same(s0["value"]), W, "stores %s (found [%s] = %s)" % (ref_call, s0["index"], s0["value"]))
+        arr = [names[k] for k, (n, v) in enumerate(argspec) if v and k < len(names)]
+        size = hi + 1
+        alloc = s0["base"].args[0] if _fname(s0["base"]) == "PyArray_DATA" and len(s0["base"].args) == 1 else None
+        is_size = bool(arr) and isinstance(size, sp.core.function.AppliedUndef) and (
+            any(a == sp.Function("PyArray_DIMS")(S(arr[0])) for a in size.args) or (_fname(size) in ("PyArray_SIZE", "PyArray_Size") and size.args[:1] == (S(arr[0]),)))
+        is_alloc = alloc is not None and isinstance(alloc, sp.core.function.AppliedUndef) and len(alloc.args) >= 3 and (
+            "PyArray_API" in _fname(alloc) or _fname(alloc) in ("PyArray_Zeros", "PyArray_ZEROS", "PyArray_Empty", "PyArray_EMPTY", "PyArray_SimpleNew"))
+        dims_ok = bool(is_alloc) and alloc.args[0] == 1 and _fname(alloc.args[1]) == "addr" and alloc.args[1].args[1] == size
+        if alloc is None or not is_alloc:
+            chk.ob("R11.3", wname + "::output-sized-from-array-argument", None, W, "the output array allocation was not recognised (stores go to %s)" % s0["base"])
+        else:
+            chk.ob("R11.3", wname + "::output-sized-from-array-argument", bool(is_size and dims_ok), W, "the 1-d output is allocated with the size of %s (size %s, allocation %s)" % (arr[:1], size, alloc))
+        chk.ob("R11.3", wname + "::loop-over-all-elements", bool(lo == 0 and is_size and s0["index"] == IDX), W, "for i in [0, size of %s) (found [%s, %s], index %s)" % (arr[:1], lo, size, s0["index"]))
+        if alloc is None or not is_alloc or not live:
+            chk.ob("R11.3", wname + "::returns-new-array", None, W, "the returned object / its allocation was not recognised (returns %s)" % live)
+        else:
+            f64 = any(str(x) in ("NPY_DOUBLE", "NPY_FLOAT64") for x in alloc.free_symbols)
+            chk.ob("R11.3", wname + "::returns-new-array", bool(all(v == alloc for v in live) and f64), W, "the newly allocated float64 array whose elements were stored is returned (returns %s)" % live)
 
     for q, (a1, a2) in TWO.items():
         check(q, q, [(a1, False), (a2, False)])
